@@ -1,6 +1,6 @@
 ''' import-only stand-in '''
-def safe_load(f):
-    raise NotImplementedError('yaml stand-in')
+AF_LINK = 17
+
+
 def net_if_addrs():
     return {}
-
